@@ -28,7 +28,7 @@ type c09Req struct {
 	body   []byte
 }
 
-var c09FragFirst, c09EventMsgs atomic.Int64
+var c09FragFirst, c09EventMsgs, c09QuietAfterFragment atomic.Int64
 
 func c09Conn(srv *svc.Server, cid int, seed uint64, nframes int) (viol [][2]string, incon bool, checked int, wit any) {
 	bad := func(sig, detail string) { viol = append(viol, [2]string{sig, detail}) }
@@ -104,6 +104,11 @@ func c09Conn(srv *svc.Server, cid int, seed uint64, nframes int) (viol [][2]stri
 			firstWasUpload = true
 		} else if t.Write(t.SubFrame(0x0801, first, 3, 2, fb)) != nil {
 			return nil, true, 0, nil
+		} else if cid%16 == 1 {
+			// ... and on some of these connections nothing follows for 5.5 s of real time: the first message after the pause makes the
+			// server compose a re-request from what it remembers of that packet — which the join callback still holds
+			time.Sleep(5500 * time.Millisecond)
+			c09QuietAfterFragment.Add(1)
 		}
 		c09FragFirst.Add(1)
 	}
@@ -419,6 +424,7 @@ func c09Socket(c *core.Collector, x *Ctx) {
 	c09Suite(c, c.Seed, x.Batch, c.N(8, 24), c.N(300, 2500))
 	c.Count("socket_reassembled_transfers_completed_by_a_later_packet", c09Splits.Load())
 	c.Count("socket_connections_starting_with_a_lone_fragment", c09FragFirst.Load())
+	c.Count("socket_connections_quiet_for_5_5_s_after_their_lone_fragment", c09QuietAfterFragment.Load())
 	c.Count("socket_join_and_notsupported_messages_rechecked", c09EventMsgs.Load())
 	c.Floor("socket_reassembled_transfers_completed_by_a_later_packet", 50)
 	d, tot := svc.SitesHit()
